@@ -660,5 +660,33 @@ func ruleNoPartialLine(c *Ctx) {
 				"readLine returns the buffered reader's line without asking the limiter: when an over-long line arrives in several segments, bufio returns its buffered beginning with a nil error and that truncated prefix is dispatched as a command (e.g. MAIL reaches the backend) before the 500")
 		})
 		R.Ob("(*Conn).readLine/returns the text reader's line", c.P.Pos(f.Pos()), n >= 1, "no return of a textproto line found")
+		// the limiter is asked AFTER the read that may have put it into its refusing state (asking before says
+		// nothing about the line just read)
+		allInstrs(f, func(in ssa.Instruction) {
+			if !isStaticCall(in, "(*textproto.Reader).ReadLine") {
+				return
+			}
+			rd := in
+			v := RunPend(f, PendRule{
+				Trig: func(x ssa.Instruction) bool { return x == rd },
+				Disch: func(x ssa.Instruction) bool {
+					if isStaticCall(x, "(*lineLimitReader).exceeded") {
+						return true
+					}
+					if u, ok := x.(*ssa.UnOp); ok && u.Op == token.MUL && describe(u) == "lineLimitReader.curLineLength" {
+						return true
+					}
+					return false
+				},
+				AtExit:   true,
+				SkipEdge: c.F.SkipUnder(describe(rd.(ssa.Value)) + "#1 == nil"), // a failed read hands out no line
+				ExitOK: func(ret ssa.Instruction) bool {
+					r := ret.(*ssa.Return)
+					rv := returnedValues(r)
+					return len(rv) != 2 || !strings.Contains(describe(rv[0]), "(*textproto.Reader).ReadLine(")
+				},
+			})
+			R.Ob(c.siteKey(rd, "limiter consulted after the read"), c.P.InstrPos(rd), len(v) == 0, "the line is returned without consulting the limiter after the ReadLine call that may have exceeded the limit: a check made before the read does not cover the line just read")
+		})
 	}
 }
